@@ -2,6 +2,7 @@
 //! E1 engine of /verif: native symbolic execution of the repo's code over the stand-in algebra,
 //! obligations discharged by z3.  Writes a JSON part-file; the `check` driver turns it into
 //! evidence + verdict.
+pub mod affine;
 pub mod alloc_meter;
 pub mod atoms;
 pub mod eng;
